@@ -735,7 +735,8 @@ class SsbGraphMinimizer:
                     in_edges = v.in_edges()
                     out_edges = v.out_edges()
                     if len(in_edges) == 0:
-                        vs_to_delete.add(v)
+                        if not v["op"].referenced_from_other_routine:
+                            vs_to_delete.add(v)
                     elif len(in_edges) == 1:
                         assert len(out_edges) == 1
                         if (
